@@ -10,38 +10,55 @@ SPEC = {
                 shards_quick=1, shards_thorough=1, timeout_quick=600, timeout_thorough=3000)],
     "rule": "H1 (TestVerifC02Batch): scripts of pin/unpin over 3 CIDs x 12 rich pin variants on one real Consensus, config classes "
             "{batching off, size-only 1..4, age-only, both limits, queue 1..3 with the worker held during a burst} x 0..3 failing datastore "
-            "commits (tombstone / element / heads write), every 4th case from a boundary+malformed list; H2 (TestVerifC02Set): 1..3 real "
+            "commits (tombstone / element / heads write), a pin repeats the last pin of its CID with a fair probability (already stored as given, unpin + "
+            "identical pin in one batch, pin / unpin / identical pin), every 4th case from a boundary+malformed list, every 24th case a trickle "
+            "(35-64 operations on distinct CIDs, one every 1/4..1/2 of MaxBatchAge, accept time and time of effect in State() recorded for each, "
+            "re-measured up to 3 times); H2 (TestVerifC02Set): 1..3 real "
             "go-ds-crdt replicas, random local writes (direct or one batch of 1..4) interleaved with deliveries of the latest or an older "
             "broadcast, every 8th case from a boundary list (S3, equal heights, add-wins, duplicate key in a batch, newest-first walks); "
-            "H3 (TestVerifC02Net): real peers over libp2p, partition/heal and one untrusted-peer scenario. non-trivial = a history with >= 2 "
+            "H3 (TestVerifC02Net): real peers over libp2p: partition/heal of 2-3 peers that all trust each other, a line A--B--C in which A and C "
+            "list only each other in trusted_peers and are connected only through the relay B (trust-all, trusted by nobody), and one "
+            "untrusted-peer scenario; the pinsets of every pair of peers that trust each other are compared. non-trivial = a history with >= 2 "
             "operations on one CID (H1), >= 2 replicas writing one CID (H2), >= 3 deltas (H3); distinct = distinct canonical JSON of the input",
     "codes": {1: "model_eq_impl (C02)", 10: "spec_okb C02: accepted operations are taken in submission order, none lost",
               11: "spec_okb C02: refusal exactly when the queue is full, a refused operation has no effect",
               12: "spec_okb C02: commit when the batch reaches its size limit",
-              13: "spec_okb C02: commit when the batch reaches its age limit",
+              13: "spec_okb C02: commit when the batch reaches its age limit (counted from the first operation of the batch: every accepted operation of a "
+                  "trickle is in effect within MaxBatchAge + slack)",
               14: "spec_okb C02: the batch worker never stops taking accepted operations",
               15: "spec_okb C02: committed operations take effect in submission order per CID",
               16: "spec_okb C02: every change of the pinset reaches the pin tracker",
-              20: "spec_okb C02: replicas that exchanged all updates hold the same set of CIDs",
-              21: "spec_okb C02: replicas that exchanged all updates hold the same pin for every CID",
+              20: "spec_okb C02: peers that trust each other and exchanged all updates hold the same set of CIDs",
+              21: "spec_okb C02: peers that trust each other and exchanged all updates hold the same pin for every CID",
               22: "spec_okb C02: every change a merge makes to a replica's pinset has its hook",
               23: "spec_okb C02: a local write takes effect at once, in submission order per CID",
               24: "spec_okb C02/C07: an update published by a peer nobody trusts reaches no trusting peer's pinset"},
     "tags": {1: "crdt-value-divergence-tombstoned-higher-priority", 2: "crdt-republish-same-priority-after-heads-failure",
              3: "crdt-value-divergence-duplicate-key-in-delta"},
     "trusted": ["harness/crdt/c02_rig_test.go: fault-injecting ds.Batching wrapper over datastore/inmem (a failing Commit writes nothing), the pass-through gate around css.batchingState "
-                "(records and can hold the worker inside Add/Rm; its copy of the batch counter is used only to know what to wait for), recording PinTracker RPC service",
+                "(records, with the harness clock, and can hold the worker inside Add/Rm; its copy of the batch counter is used only to know what to wait for; "
+                "a panic inside Add/Rm/Commit is recovered, reported as a direct violation and returned as an error), recording PinTracker RPC service",
+                "harness/crdt/c02_batch_test.go trickle cases: wall clock of the test process (time.Now), State().Has polled every millisecond; the age clause counts only "
+                "when it fails in three consecutive measurements; slack = max(2 x MaxBatchAge, 400 ms)",
+                "harness/crdt/c02_net_test.go: libp2p connection gater (partition; the two ends of the line refuse each other), as C07's relay case",
                 "harness/crdt/c02_set_test.go: harness Broadcaster (manual inbox) and DAGSyncer (per-replica map, fallback fetch); NumWorkers=1 so that one delta is merged at a time",
                 "go-ds-crdt v0.1.21 DAG walk, heads bookkeeping, pubsub and bitswap delivery are not modelled (merge order and delta contents are taken from the observation; the set logic is modelled)",
                 "value bytes are compared through their rank in bytes.Compare order within a case"],
-    "level_text": "Theorems (Props/C02.v, 22, all closed) over Gallina transcriptions of consensus.go LogPin/LogUnpin/batchWorker (event machine with Go<1.23 timer "
-                  "semantics, every schedule and every Add/Rm/Commit outcome) and of go-ds-crdt v0.1.21 set.go + the write path of crdt.go as written (every delta list, every "
-                  "delivery order, every commit outcome of one replica); the transcriptions are replayed against the real Consensus / real crdt.Datastore on generated scripts at "
+    "level_text": "Theorems (Props/C02.v, 30, all closed) over Gallina transcriptions of consensus.go LogPin/LogUnpin/batchWorker (event machine with Go<1.23 timer "
+                  "semantics, every schedule and every Add/Rm/Commit outcome; a timed refinement with an explicit clock in which Reset sets an expiry: the age timer "
+                  "of a pending batch always expires MaxBatchAge after its first operation was taken, and in every timely schedule no operation waits longer than "
+                  "MaxBatchAge + latency), of go-ds-crdt v0.1.21 set.go + the write path of crdt.go as written (every delta list, every delivery order, every commit "
+                  "outcome of one replica) and of the pubsub topic validator (an update is merged iff its signer is trusted, whatever peer forwarded it: peers that "
+                  "trust the same signers converge for every order and path of arrival); the transcriptions are replayed against the real Consensus / real crdt.Datastore on generated scripts at "
                   "every run and the implementation's own observations are checked against the boolean form of the property",
     "level_note": "model tied to code by differential testing (generator-bounded). Three statements are false of the dependency as written and are kept as _refuted/_partial pairs with "
                   "Gallina recognisers (findings): value divergence and missing PutHook when a tombstoned element outranks a surviving one (S3), value divergence when one delta pins a CID twice, "
-                  "a lost pin when a publish fails at the heads write. S2 (batch worker deadlock) is fixed in /repo (051502e); batch_worker_never_blocks is proved at full strength for the repaired machine.",
-    "assumptions": ["pubsub/bitswap deliver every published delta to every trusting peer eventually and each replica merges it (exactly-once is not needed: merging twice is covered by H1 retries); sampled by H3",
+                  "a lost pin when a publish fails at the heads write. The age bound is proved under a stated timeliness assumption on the Go runtime (a due timer "
+                  "fires within lf, the worker reads a fired timer within lw); on the implementation it is a wall-clock measurement with slack. S2 (batch worker deadlock) is fixed in /repo (051502e); batch_worker_never_blocks is proved at full strength for the repaired machine.",
+    "assumptions": ["timely schedule for the age bound: the runtime fires a due timer within lf and the batch worker reads a fired timer within lw (timely_from); the "
+                    "harness allows slack = max(2 x MaxBatchAge, 400 ms) for both together",
+                    "an update is attributed to the peer that signed the broadcast carrying it; a relay forwards what its own validator accepts (gossipsub); sampled by H3's line topology",
+                    "pubsub/bitswap deliver every published delta to every trusting peer eventually and each replica merges it (exactly-once is not needed: merging twice is covered by H1 retries); sampled by H3",
                     "a delivery is a sequence of whole-delta merges (go-ds-crdt with several DAG workers may interleave the tombstone and element writes of two deltas; membership convergence does not depend on it)",
                     "Add/Rm on the batching state fails only through the datastore (not injected; the model has the branch and batch_no_loss_no_reorder accounts for it explicitly)",
                     "the datastore is a ds.Batching store (inmem, badger, leveldb are): putElems reads values through the store while writing through a batch"],
